@@ -166,6 +166,8 @@ finding("C08-bracket-edge-cases", "C08", "bracket expressions containing `!`/`-`
 
 finding("C08-trailing-backslash", "C08", "a pattern ending in an unescaped backslash (`*\\`) matches subjects that end in a backslash; in bash such a pattern matches nothing",
         all=["pat:trailing-backslash"], why="unspecified by POSIX; bash's matcher fails the match at the dangling escape, brush's translation escapes the end of the regex")
+finding("C08-negated-match-all", "C08", "`!(*)` matches the empty string (nothing can match the negation of a pattern that matches everything): the translation of `!( )` ends in an empty alternative",
+        all=["pat:negated-match-all", "pat:extglob-group"], why="same translation as C06-negated-alternation: `(?:(?!P).*|(?>P).+?|)`; needs a whole-region look-ahead")
 finding("C08-extglob-empty-alternative", "C08", "extglob groups with an empty alternative (`*@()`, `*!()`, `!(|)`) disagree with bash on the empty subject and on subjects that only the empty alternative accounts for",
         all=["pat:empty-alternative", "pat:extglob-group"], why="the extglob-to-regex translation gives `()` the regex meaning; bash itself is irregular here (see C06 false-alarm note), a repair would have to mirror bash's matcher case by case")
 finding("C08-extglob-paren-inside-group", "C08", "`*(()`, `?(()`, `!(()`: a bare `(` inside an extglob group (bash takes the pattern as unbalanced and matches nothing; brush matches the empty repetition)",
